@@ -67,8 +67,14 @@ func (e *Engine) pureReads(fn *ssa.Function) map[string]string {
 					}
 				case *ssa.IndexAddr:
 					if sl, ok := types.Unalias(x.X.Type()).Underlying().(*types.Slice); ok {
-						es := so.Sort(sl.Elem())
-						add("E:"+es, ArraySort("Ref", ArraySort("Int", es)))
+						if structElems(sl.Elem()) {
+							for k, srt := range flatFieldKeySorts(so, sl.Elem()) {
+								add(k, srt)
+							}
+						} else {
+							es := so.Sort(sl.Elem())
+							add("E:"+es, ArraySort("Ref", ArraySort("Int", es)))
+						}
 					}
 				case *ssa.Lookup:
 					if mt, ok := types.Unalias(x.X.Type()).Underlying().(*types.Map); ok {
